@@ -52,6 +52,8 @@ var c20Reqs = []c20Req{
 	{"literal-and-variable-args", `query($i:Int,$n:Int,$s:String){ echo(i:$i, s:"lit") echo2(s:$s, i:4) nodes(n:$n, as:"A") { id } a { items(n:$n) { n } name(up:true) } }`,
 		[]map[string]interface{}{v("i", 5, "n", 3, "s", "sv"), v("i", 1, "n", 1), v("s", "only-s")}, nil, "", nil},
 	{"typed-fragment-merge", `{ a { ...P } c { ...P } nodes(n:3) { ...P } } fragment P on Node { peer(as:"B") { id } ... on A { peer(as:"B") { ... on B { bOnly } } } ... on C { peer(as:"B") { name } } }`, nil, nil, "", nil},
+	{"object-field-merge", `query($as:String){ node(as:$as) { meta { s } ... on A { meta { i } } ... on C { meta { f b } } } nodes(n:3) { meta { s } ... on A { meta { i } } ... on C { meta { f } } } }`,
+		[]map[string]interface{}{v("as", "A"), v("as", "B"), v("as", "C")}, nil, "", nil},
 	{"static-args", `{ echo(i:1, s:"a", e:BETA, f:{min:2}) echo2(l:[4,5]) a { items(n:3) { n label kind owner { id name kind } } name(up:true) } }`, nil, nil, "", nil},
 	{"union-default-resolve", `{ u { ... on A { aOnly items(n:1) { n } } ... on B { bOnly } } b { u { ... on A { id } ... on B { id } } } }`, nil, nil, "", nil},
 	{"default-resolved-sources", `{ plainA { name n tag } plainB { name n tag } plainPtr { name n } plainMap { name n tag } plainTagged { name n tag } plainFR { name n } plainFRPtr { name n tag echoArg(x:3) } }`, nil, nil,
@@ -469,6 +471,52 @@ func newC20State(w *World, doc *ast.Document, root Tok, occ map[string]int) *c20
 	return st
 }
 
+// c20SubscribeParams checks what the Subscribe resolver of a subscription's root
+// field is told (it is a resolver like any other: coerced arguments, accurate info,
+// the caller's context).
+func c20SubscribeParams(o *Outcome) {
+	w := NewWorld("A")
+	root := map[string]interface{}{"tok": "root"}
+	rc := &ReqCtx{Task: "c1", Req: 1, W: w}
+	ctx := WithReq(context.Background(), rc)
+	var bad []string
+	calls := 0
+	w.SubSource = func(p graphql.ResolveParams) (interface{}, error) {
+		calls++
+		if got, want := jsonOf(p.Args), `{"k":"b","n":2,"st":"stamp\u003cs9\u003e"}`; got != want {
+			bad = append(bad, "Args are "+got+", the coerced arguments are "+want)
+		}
+		if ReqOf(p.Context) != rc {
+			bad = append(bad, "the caller's context did not reach the Subscribe resolver")
+		}
+		if p.Info.FieldName != "events" || PathString(p.Info.Path) != "ev" || len(p.Info.FieldASTs) != 1 || respKey(p.Info.FieldASTs[0]) != "ev" {
+			bad = append(bad, fmt.Sprintf("info names field %q at path %q with %d occurrences", p.Info.FieldName, PathString(p.Info.Path), len(p.Info.FieldASTs)))
+		}
+		if p.Info.ParentType == nil || p.Info.ParentType.Name() != "Subscription" || p.Info.ReturnType != w.Obj["B"] {
+			bad = append(bad, fmt.Sprintf("ParentType %v / ReturnType %v", p.Info.ParentType, p.Info.ReturnType))
+		}
+		if jsonOf(p.Info.VariableValues) != `{"k":"b","n":2,"st":"stamp\u003cs9\u003e"}` {
+			bad = append(bad, "Info.VariableValues are "+jsonOf(p.Info.VariableValues))
+		}
+		if !reflect.DeepEqual(p.Source, root) || !reflect.DeepEqual(p.Info.RootValue, root) {
+			bad = append(bad, fmt.Sprintf("Source %v / RootValue %v, the request's root is %v", p.Source, p.Info.RootValue, root))
+		}
+		c := make(chan interface{})
+		close(c)
+		return c, nil
+	}
+	ch := graphql.Subscribe(graphql.Params{Schema: w.Schema, RequestString: `subscription($k:Kind, $n:Int = 2, $st:Stamp){ ev: events(k:$k, n:$n, st:$st) { id } }`,
+		RootObject: root, VariableValues: map[string]interface{}{"k": "BETA", "st": "s9"}, Context: ctx})
+	for range ch {
+	}
+	if calls != 1 {
+		o.Violate("C20/subscribe-params", "the Subscribe resolver was called %d times", calls)
+	}
+	for _, b := range bad {
+		o.Violate("C20/subscribe-params", "Subscribe resolver of Subscription.events: %s", b)
+	}
+}
+
 func (c20) Run(t TestingT, scn json.RawMessage, tape *Tape) *Outcome {
 	var sc C20Scn
 	if err := json.Unmarshal(scn, &sc); err != nil {
@@ -476,6 +524,10 @@ func (c20) Run(t TestingT, scn json.RawMessage, tape *Tape) *Outcome {
 	}
 	o := &Outcome{}
 	rq := c20Reqs[sc.Req]
+	if sc.Req == 0 {
+		// (piggy-backed on one request of the pool: a fixed-input check)
+		c20SubscribeParams(o)
+	}
 	// solo references; execution ordinals are global so tokens identify their execution
 	type slot struct{ ci, ei, ord int }
 	var slots []slot
